@@ -58,8 +58,8 @@ type aeCtx struct {
 	originOf       map[string]fieldOrigin
 	depIndex       map[string][]string
 	depIndexN      int
-	uintParse      map[string]bool // "Atoi(x)" terms produced by strconv.ParseUint(x, 10, ·)
-	signedParse    map[string]bool // ... by Atoi / ParseInt / another base
+	uintParse      map[string]bool     // "Atoi(x)" terms produced by strconv.ParseUint(x, 10, ·)
+	signedParse    map[string]bool     // ... by Atoi / ParseInt / another base
 	scope          func(w *world) bool // property-level scope: worlds outside it carry no obligation
 	compareHook    *ssa.Function       // tabulation: calls to this function yield an opaque sign term
 	allowCrossTerm bool
